@@ -18,16 +18,18 @@ RULE = ("Hypothesis-generated combine tasks in a package of depth 0-3 over 1-5 d
         "named after it with realpath(entry) == realpath(that directory), equal to what the other dependent got in COND_DEPS; "
         "with a planted non-link entry the run exits 1 with the conflict diagnostic and the planted tree is unchanged. "
         "Non-trivial = combine and >=1 dep in different packages of different depth, or a later run that moved a link. "
-        "Distinct = SHA-1 of case JSON.")
+        "Distinct = SHA-1 of case JSON."
+        " In a third of the cases the dependency names are variations of one stem (out, out-tmp, out_tmp, tmp-out, out-new, out-old, out-bak, out-lock, out-1, _out, out_ ...), listed in a generated order.")
 ASSUMPTIONS = ["nothing is demanded for deps whose output directory is empty or absent (the statement excludes them)",
                "git disabled: the cached version of an experiment is its newest recorded one"]
 ESSENTIAL = ["cross_depth", "relink_new_version", "empty_dep_output", "planted_file", "planted_dir", "planted_emptydir",
-             "group_dep", "combine_dep", "cached_rerun", "depth3"]
+             "group_dep", "combine_dep", "cached_rerun", "depth3", "entry_names_with_temp_file_affixes"]
 TECHNIQUE = "property-based testing (Hypothesis) under the virtual kernel; realpath-equality oracle against the directories recorded at spawn"
 LEVEL_TEXT = "Randomised search over combine layouts and run histories; link targets are compared by realpath with the directories the deps actually received."
 LEVEL_NOTE = "Trusted: vf/kernel.py spawn records and file materialisation."
 
 PKGS = ["", "a", "a/b", "a/b/c", "x-1", "x-1/_y"]
+RELATED = ["%s", "%s-tmp", "%s_tmp", "tmp-%s", "%s-new", "%s-old", "%s-bak", "%s-lock", "%s-link", "%s-1", "_%s", "%s_", "-%s", "%s-"]
 
 
 @st.composite
@@ -36,9 +38,13 @@ def _case(draw, tier):
     cpkg = draw(st.sampled_from(range(len(PKGS))))
     tasks = [{"pkg": cpkg, "name": "cmb", "kind": "combine", "deps": []}]
     writes = {}
+    # dependency (= entry) names: plain, or variations of one stem with the affixes that temporary / backup files get
+    related = draw(st.sampled_from([False, False, True]))
+    stem = draw(st.sampled_from(["out", "d", "plots", "x-1"]))
+    dnames = list(draw(st.permutations(RELATED)))[:k] if related else None
     for i in range(1, k + 1):
         kind = draw(st.sampled_from(["exp", "exp", "cmd", "cmd", "group", "combine"]))
-        t = {"pkg": draw(st.sampled_from(range(len(PKGS)))), "name": "d%d" % i, "kind": kind, "deps": []}
+        t = {"pkg": draw(st.sampled_from(range(len(PKGS)))), "name": (dnames[i - 1] % stem) if related else "d%d" % i, "kind": kind, "deps": []}
         if kind in ("exp", "cmd"):
             t["par"] = draw(st.booleans())
             writes[str(i)] = draw(st.sampled_from([True, True, False]))
@@ -73,7 +79,7 @@ def _case(draw, tier):
         if t["kind"] == "exp" and draw(st.sampled_from(range(4))) == 0:
             seeded[str(i)] = [draw(st.sampled_from(range(100, 200)))]
     return {"pkgs": PKGS, "tasks": tasks, "target": target, "seeded": seeded, "jobs": draw(st.sampled_from([None, 2])),
-            "flags": [], "outcomes": {}, "tape": [], "foreign": 0, "history": hist, "writes": writes}
+            "flags": [], "outcomes": {}, "tape": [], "foreign": 0, "history": hist, "writes": writes, "related_names": related}
 
 
 def strategy(tier):
@@ -119,6 +125,8 @@ def _run(case, root):
     summary = {"combine": ids[0], "deps": [ids[d[0]] for d in cmb["deps"]], "runs": []}
     if cpkg.count("/") >= 2 or any(case["pkgs"][case["tasks"][d[0]]["pkg"]].count("/") >= 2 for d in cmb["deps"]):
         labels.add("depth3")
+    if case.get("related_names"):
+        labels.add("entry_names_with_temp_file_affixes")
     for r, inv in enumerate(case["history"]):
         c2 = dict(case)
         c2["flags"] = inv["flags"]
